@@ -241,6 +241,13 @@ type hcRun struct {
 	verdicts int
 }
 
+// trStep records a query for the model engine (histories without a trace have tr == nil).
+func (r *hcRun) trStep(op, obs []int64) {
+	if r.tr != nil {
+		r.tr.Step(op, obs)
+	}
+}
+
 func (r *hcRun) viol(what, detail string) {
 	r.rep.Violate(r.hist, r.tag, r.step, what, fmt.Sprintf("T=%d %s", r.T, detail))
 }
@@ -315,7 +322,7 @@ func (r *hcRun) check(label string, st atree.SlabStorage, g *hcGraph, expected i
 			op[1] = 1 // the failure arose outside the modelled algorithm: compare ok/err only
 			code = 0
 		}
-		r.tr.Step(op, []int64{1, int64(code)})
+		r.trStep(op, []int64{1, int64(code)})
 		return
 	}
 	r.rep.Err("ok")
@@ -330,7 +337,7 @@ func (r *hcRun) check(label string, st atree.SlabStorage, g *hcGraph, expected i
 	if v.healthy && fmt.Sprint(got) != fmt.Sprint(v.roots) {
 		r.viol("C20: returned root set differs from the unreferenced slabs", fmt.Sprintf("%s: got %v want %v", label, got, v.roots))
 	}
-	r.tr.Step(op, append([]int64{0}, hcIDList(got)...))
+	r.trStep(op, append([]int64{0}, hcIDList(got)...))
 }
 
 // childRefs compares GetAllChildReferences(id) with own reachability and records the query.
@@ -359,7 +366,7 @@ func (r *hcRun) childRefs(label string, st *atree.PersistentSlabStorage, g *hcGr
 		if g.present(id) {
 			r.viol("C20: GetAllChildReferences fails on a present slab", fmt.Sprintf("%s %s: %v", label, id, err))
 		}
-		r.tr.Step(op, []int64{1})
+		r.trStep(op, []int64{1})
 		return
 	}
 	if !g.present(id) {
@@ -396,7 +403,7 @@ func (r *hcRun) childRefs(label string, st *atree.PersistentSlabStorage, g *hcGr
 	obs = append(obs, hcIDList(refs)...)
 	obs = append(obs, int64(len(broken)))
 	obs = append(obs, hcIDList(broken)...)
-	r.tr.Step(op, obs)
+	r.trStep(op, obs)
 }
 
 // loaded returns a fresh storage over a clone of the ledger with every slab retrieved (cached).
